@@ -31,5 +31,38 @@ fn k7_combine_rescore_scores_is_documented_combination() {
   assert!(r == spec || (r.is_nan() && spec.is_nan()));
 }
 
+// ---- K11: the hex text layer of cursors, one byte: decoding what hex_encode wrote gives the byte back (all 256 values) ----
+#[kani::proof]
+#[kani::unwind(4)]
+fn k11_hex_byte_roundtrip() {
+  let b: u8 = kani::any();
+  let s = hex_encode(&[b]);
+  assert!(s.len() == 2);
+  let r = u8::from_str_radix(&s, 16);
+  assert!(r == Ok(b));
+}
+
+// sort-cursor values: SortValue -> CursorValue -> SortValue keeps the value (bit-exact for floats)
+#[kani::proof]
+fn k11_cursor_value_roundtrip() {
+  let k: u8 = kani::any();
+  let v = match k % 4 {
+    0 => SortValue::Score(kani::any()),
+    1 => SortValue::I64(kani::any()),
+    2 => SortValue::F64(kani::any()),
+    _ => SortValue::Missing,
+  };
+  let c: CursorValue = v.clone().into();
+  let back: SortValue = c.into();
+  let same = match (&v, &back) {
+    (SortValue::Score(a), SortValue::Score(b)) => a.to_bits() == b.to_bits(),
+    (SortValue::I64(a), SortValue::I64(b)) => a == b,
+    (SortValue::F64(a), SortValue::F64(b)) => a.to_bits() == b.to_bits(),
+    (SortValue::Missing, SortValue::Missing) => true,
+    _ => false,
+  };
+  assert!(same);
+}
+
 // concrete-playback tests (empty unless a failed harness is being replayed)
 include!("/verif/.cache/gen/playback_reader.rs");
